@@ -88,9 +88,8 @@ func NewService(
 
 func (rsc *service) Sync(ctx context.Context) error {
 	podsList := &v1.PodList{}
-	err := rsc.kubeClient.List(ctx, podsList,
-		client.HasLabels{constants.GPUGroup},
-	)
+	// no label filter: multi fraction pods carry no primary gpu group label, SyncForPodsList picks the groups
+	err := rsc.kubeClient.List(ctx, podsList)
 	if err != nil {
 		return err
 	}
@@ -101,7 +100,6 @@ func (rsc *service) Sync(ctx context.Context) error {
 func (rsc *service) SyncForNode(ctx context.Context, nodeName string) error {
 	podsList := &v1.PodList{}
 	err := rsc.kubeClient.List(ctx, podsList,
-		client.HasLabels{constants.GPUGroup},
 		client.MatchingFields{"spec.nodeName": nodeName},
 	)
 	if err != nil {
